@@ -1,0 +1,5 @@
+//go:build !verif
+
+package harfbuzz
+
+func verifStage(*Buffer, string) {}
